@@ -194,6 +194,33 @@ def gen_cases(cat, tier, seed):
         ids = rnd.sample([f for f in a1 if cat.funcs[f][1] != "attr"], rnd.choice([1, 2]))
         a = rnd.choice(relevant_args(cat, ids, 0, pool, rnd, 3))
         cases.append("D 0 fncall %s | %s" % (",".join(map(str, ids)), a))
+    # 7. overload twins: same parameter type, different constness / form (and, for some, different return types), both registration orders
+    natives = [f for f in a1 if cat.funcs[f][1] == "native" and len(cat.funcs[f][2]) == 1]
+    for f in natives:
+        for g in natives:
+            pf, pg = cat.funcs[f][2][0], cat.funcs[g][2][0]
+            if f == g or pf[0] != pg[0] or pf[0] in (0, 1):
+                continue
+            if not (tier == "thorough" or pf[1] != pg[1] or rnd.random() < 0.15):
+                continue
+            t = pf[0]
+            for k in ("var", "cvar", "ref", "cref", "sp", "csp", "ptr", "cptr"):
+                if t in (T_VECINT, 30) and k not in ("var", "cref"):
+                    continue
+                if tier == "thorough" or k in ("var", "cvar", "sp") or rnd.random() < 0.3:
+                    cases.append("D 0 %s %d,%d | %s.%d.3" % ("script" if rnd.random() < 0.2 else "direct", f, g, k, t))
+    # 8. two-step histories: a C++ function taking std::shared_ptr<T>& re-seats the variable, then the variable is passed on / cast out:
+    #    every form must receive the object the variable holds now
+    for t in (T_INT, T_STRING, T_BASE, T_DERIVED, T_OTHER):
+        for f in a1:
+            if cat.funcs[f][1] in ("native", "dyn", "dynv"):
+                cases.append("D 0 reseat %d | sp.%d.3" % (f, t))
+        for fm in CAST_FORMS:
+            cases.append("C 0 rconv %s.%d | sp.%d.3" % (fm, t, t))
+        for _ in range(20 * scale):
+            ids = rnd.sample(a1, 2)
+            cases.append("D 0 reseat %s | sp.%d.3" % (",".join(map(str, ids)), t))
+    cases.append("D 0 reseat 18,17 | upsp.18.6")
     # 6. the C++-receives direction: boxed_cast<T>, eval<T>, std::function wrappers
     for t in CAST_TYPES:
         for fm in CAST_FORMS:
@@ -295,9 +322,13 @@ def compare(case, impl, model):
 
 
 def parse_spec(spec):
-    d = {"arity": None, "exact": [], "allow": {}}
+    d = {"arity": None, "exact": [], "allow": {}, "pref": [], "errs": None}
     for part in spec.split(" | "):
         f = part.split(" ", 2)
+        if f[0] == "PREF":
+            d["pref"] = [int(x) for x in f[1].split(",")] if len(f) > 1 and f[1] else []
+        elif f[0] == "ERRS":
+            d["errs"] = f[1].split(",") if len(f) > 1 else []
         if f[0] == "ARITY":
             d["arity"] = f[1] == "1"
         elif f[0] == "EXACT":
@@ -315,11 +346,15 @@ def satisfies(case, impl, spec, cat):
     wild = "text" in impl.split(" | ")[0]
     obs = strip_args(impl)
     if h[0] == "C":
-        allowed = [canon(x, wild) for x in spec[len("ALLOW "):].split("/")] if spec.startswith("ALLOW") else []
+        sparts = spec.split(" | ")
+        allowed = [canon(x, wild) for x in sparts[0][len("ALLOW "):].split("/")] if sparts[0].startswith("ALLOW") else []
+        errs = [p[5:].split(",") for p in sparts if p.startswith("ERRS ")]
         if obs.startswith("CAST "):
             got = canon(obs[5:].split(" call=")[0], wild)
             if got not in allowed:
                 return False, "boxed_cast handed over %s; the specification allows %s" % (got, allowed)
+        elif obs.startswith("ERR(") and errs and obs[4:-1] not in errs[0]:
+            return False, "boxed_cast failed with %s; it may only fail with %s" % (obs, errs[0])
         return True, ""
     if "REGERR" in obs:
         return True, ""
@@ -350,8 +385,13 @@ def satisfies(case, impl, spec, cat):
                 return False, "parameter %d of function %d received %s; the specification allows %s" % (j, fid, r, al)
         if sp["exact"] and fid not in sp["exact"]:
             return False, "an overload matching the argument types exactly exists (%s) but %d was entered" % (sp["exact"], fid)
+        if sp["pref"] and fid in sp["exact"] and cat.funcs[fid][1] == "native" and fid not in sp["pref"]:
+            return False, ("overload %d was entered although an exactly matching overload with less const parameters exists (%s): for the same type the "
+                           "non-const parameter version goes first" % (fid, sp["pref"]))
     if err and enters and not body_throws:
         return False, "an error was reported although function %s had been entered" % enters[0]
+    if err and not (enters and body_throws) and sp["errs"] is not None and res[0][8:-1] not in sp["errs"]:
+        return False, "the call failed with %s; a call may only fail with %s (or the entered body's own exception)" % (res[0][4:], sp["errs"])
     if not err and not enters:
         return False, "the call returned normally without entering any function"
     if sp["arity"] is False and (enters or not err):
